@@ -10,7 +10,7 @@ namespace Gojq.RefTerm
 open Gojq Gojq.Lexer
 
 /-- a token list the lexer can have produced, as far as the parser's image is concerned -/
-def Good (ts : List Tok) : Prop := (∀ t ∈ ts, t.wf = true) ∧ shapeOK ts = true
+def Good (ts : List Tok) : Prop := (∀ t ∈ ts, t.wfI = true) ∧ shapeOK ts = true
 
 theorem good_of_goodB (ts : List Tok) (h : goodB ts = true) : Good ts := by
   simp only [goodB, Bool.and_eq_true, List.all_eq_true] at h
@@ -23,7 +23,7 @@ theorem shapeOK_tail (x : Tok) (r : List Tok) (h : shapeOK (x :: r) = true) : sh
 theorem Good.tail {x : Tok} {r : List Tok} (h : Good (x :: r)) : Good r :=
   ⟨fun t ht => h.1 t (by simp [ht]), shapeOK_tail x r h.2⟩
 
-theorem Good.head {x : Tok} {r : List Tok} (h : Good (x :: r)) : x.wf = true := h.1 x (by simp)
+theorem Good.head {x : Tok} {r : List Tok} (h : Good (x :: r)) : x.wfI = true := h.1 x (by simp)
 
 theorem Good.tail2 {x y : Tok} {r : List Tok} (h : Good (x :: y :: r)) : Good r := h.tail.tail
 theorem Good.tail3 {x y z : Tok} {r : List Tok} (h : Good (x :: y :: z :: r)) : Good r := h.tail.tail.tail
@@ -102,17 +102,17 @@ theorem expect_some {t : Tok} {ts ts' : List Tok} (h : expect t ts = some ts') :
     · next e => simp at h; subst e; subst h; rfl
     · cases h
 
-theorem wf_keyOfTok {t : Tok} {n : Bytes} (hwf : t.wf = true) (h : keyOfTok t = some n) : okKey n = true := by
+theorem wf_keyOfTok {t : Tok} {n : Bytes} (hwf : t.wfI = true) (h : keyOfTok t = some n) : okKey n = true := by
   cases t <;> simp [keyOfTok] at h
   · subst h
-    simp only [Tok.wf, isPlainIdent, Bool.and_eq_true] at hwf
+    simp only [Tok.wfI, Tok.wf, isPlainIdent, Bool.and_eq_true] at hwf
     simp [okKey, hwf.1]
   · subst h; simp [okKey, show isVarName _ = true from hwf]
   · subst h
     rename_i w
     cases w <;> decide
 
-theorem wf_paramOfTok {t : Tok} {n : Bytes} (hwf : t.wf = true) (h : paramOfTok t = some n) :
+theorem wf_paramOfTok {t : Tok} {n : Bytes} (hwf : t.wfI = true) (h : paramOfTok t = some n) :
     (isPlainIdent n || isVarName n) = true := by
   cases t <;> simp [paramOfTok] at h
   · subst h; simp [show isPlainIdent _ = true from hwf]
